@@ -357,7 +357,7 @@ func init() {
 				"AlternativeNames": {[]string{"a.com"}, []string{"a.com", "", "b.com"}, []string{"a.com", "b.com", "c.com"}, []string{"", ""}, []string{"a.com", "", ""}, []string{"", "", "a.com"}, []string{"", "a.com", "", "", "b.com", ""}, []string{""}},
 				"UDP":              {true, false},
 				"CDNOriginHost":    {"origin.example.org", ""},
-				"CDNWsUrlPath":     {"/ws", "/", "/a/b", ""},
+				"CDNWsUrlPath":     {"/ws", "/", "/a/b", "", "/cloak?ed=2048", "/my%20tunnel/ws", "/a#b", "/x y"},
 				"ServerName":       {"www.bing.com", "random", "a.b.c.d.example"},
 				"RemoteHost":       {"203.0.113.5", "example.net", "::1", "2001:db8::1", "fe80::1%eth0", "::ffff:192.0.2.7"},
 				"LocalHost":        {"127.0.0.1", "::1", "fe80::1%lo", "::ffff:127.0.0.1"},
@@ -459,6 +459,11 @@ func init() {
 	vx.Register(&vx.Scenario{Name: "cfg.documents", Prop: "C20", Run: func(c *vx.Ctx) *vx.Report {
 		rep := &vx.Report{Job: c.Job, Engine: "enum", Outcomes: map[string]int64{}, Exhaustive: true}
 		docs := []string{"", " ", "null", "[]", "{}", "42", "true", `"ServerName=x"`, "{", `{"UID":`, `{"UID":null}`, `[{"ServerName":"x"}]`, "null\n", " null ", `{"ServerName":null,"UID":null,"PublicKey":null}`, `{"NumConn":"4"}`, `{"AlternativeNames":"a.com"}`, `{"AlternativeNames":null}`}
+		// a complete, valid configuration followed by something: not a configuration file either
+		good := string(c20Base().toJSON())
+		trailing := []string{good + "}", good + "\n{", good + " trailing", good + good, good + "\n" + `{"NumConn":9}`, good + "]", good + ","}
+		nTrailing := len(trailing)
+		docs = append(docs, trailing...)
 		for i, doc := range docs {
 			path := fmt.Sprintf("/dev/shm/vx-%d-cfgdoc-%d.json", os.Getpid(), i)
 			if err := os.WriteFile(path, []byte(doc), 0o600); err != nil {
@@ -477,6 +482,8 @@ func init() {
 			rep.Executions++
 			rep.Transitions++
 			switch {
+			case i >= len(docs)-nTrailing && msg == "" && perr == nil:
+				rep.Violations = append(rep.Violations, vx.Violation{Clause: "rejected-not-crashed", Sig: vx.Sig(c.Job, "trailing-data-accepted"), Msg: fmt.Sprintf("a configuration file holding a complete configuration followed by %q was accepted (whatever follows the first JSON value is ignored)", doc[len(good):])})
 			case msg != "":
 				rep.Violations = append(rep.Violations, vx.Violation{Clause: "rejected-not-crashed", Sig: vx.Sig(c.Job, "rejected-not-crashed"), Msg: fmt.Sprintf("configuration file containing %q: panic: %s", doc, msg)})
 			case perr == nil && raw == nil:
